@@ -128,7 +128,7 @@ func insHistory(id string, rng *rand.Rand, lt *layoutTables, actions []string) M
 	gOut := &G{r: rng, inDomain: false}
 	held := []*heldVal{}
 	serials := []uint32{target, 303986753, 201020304, 99}
-	ops := []string{"GetDevice", "GetCardByIndex", "GetStatus", "GetTimeProfile", "GetListener", "GetEvent", "PutCard", "SetTimeProfile", "AddTask", "ActivateKeypads", "GetDevices", "GetTime", "SetDoorPasscodes"}
+	ops := []string{"GetDevice", "GetCardByIndex", "GetStatus", "GetTimeProfile", "GetListener", "GetEvent", "PutCard", "SetTimeProfile", "AddTask", "ActivateKeypads", "GetDevices", "GetTime", "SetDoorPasscodes", "SetAddress", "SetListener"}
 
 	for _, a := range actions {
 		switch a {
